@@ -5,6 +5,7 @@ mod encoders;
 mod equiv;
 mod gen;
 mod meta;
+mod readers;
 mod statics;
 mod store;
 
@@ -65,6 +66,8 @@ fn main() {
         "meta" => meta::run_meta(&mut rng, count, thorough, &extra, &mut out),
         "cross" => meta::run_cross(&mut rng, count, thorough, &extra, &mut out),
         "encoders" => encoders::run(&mut rng, count, thorough, &extra, &mut out),
+        "readers" => readers::run_readers(&mut rng, count, thorough, &shard, &mut out),
+        "writers" => readers::run_writers(&mut rng, count, thorough, &mut out),
         "static-multi" => statics::run(&mut rng, count, thorough, &statics::Cfg::from_extra(&extra, 3), &mut out),
         _ => {
             eprintln!("unknown mode {}", mode);
